@@ -4,6 +4,7 @@ package lifecycle
 
 import (
 	"fmt"
+	"strings"
 	"time"
 
 	"github.com/ClickHouse/ch-go/compress"
@@ -86,8 +87,23 @@ func ResultValues(i, rows int) ([]uint64, []string) {
 	return x, y
 }
 
+// BigRows is the row count of a "bigdata" item: enough for multi-byte varints (row count, string lengths).
+const BigRows = 300
+
+// ResultValuesBig are the values of a "bigdata" item: 300 rows, a 200-byte and a 20000-byte string among them.
+func ResultValuesBig(i int) ([]uint64, []string) {
+	x, y := ResultValues(i, BigRows)
+	y[0] = strings.Repeat("L", 200)
+	y[1] = strings.Repeat("M", 20000)
+	y[BigRows-1] = strings.Repeat("N", 128)
+	return x, y
+}
+
 func (s *serverEnc) resultCols(i, rows int) []proto.InputColumn {
 	x, y := ResultValues(i, rows)
+	if rows == BigRows {
+		x, y = ResultValuesBig(i)
+	}
 	cx := proto.ColUInt64(x)
 	var cy proto.ColStr
 	for _, v := range y {
@@ -113,6 +129,16 @@ func (s *serverEnc) Encode(it Item, i int) []byte {
 	case "data":
 		proto.ServerCodeData.Encode(&b)
 		s.block(&b, true, s.resultCols(i, 2), 2)
+	case "bigdata":
+		proto.ServerCodeData.Encode(&b)
+		s.block(&b, true, s.resultCols(i, BigRows), BigRows)
+	case "bigprog":
+		proto.ServerCodeProgress.Encode(&b)
+		proto.Progress{Rows: uint64(i), Bytes: 1<<40 + uint64(i), TotalRows: 300, WroteRows: 1 << 21, WroteBytes: 1<<63 + 5, ElapsedNs: 129}.EncodeAware(&b, s.rev)
+	case "longexc":
+		proto.ServerCodeException.Encode(&b)
+		e := proto.Exception{Code: proto.Error(60 + i), Name: strings.Repeat("N", 130), Message: strings.Repeat("m", 300), Stack: strings.Repeat("s", 20000)}
+		e.EncodeAware(&b, s.rev)
 	case "totals":
 		proto.ServerCodeTotals.Encode(&b)
 		s.block(&b, true, s.resultCols(i, 1), 1)
@@ -134,7 +160,11 @@ func (s *serverEnc) Encode(it Item, i int) []byte {
 			l.ThreadID.Append(uint64(r))
 			l.Priority.Append(int8(3))
 			l.Source.Append("src")
-			l.Text.Append(fmt.Sprintf("log-%d-%d", i, r))
+			txt := fmt.Sprintf("log-%d-%d", i, r)
+			if it.N >= 100 { // a long text in every row of a big log packet
+				txt += " " + strings.Repeat("t", 150+r)
+			}
+			l.Text.Append(txt)
 		}
 		var cols []proto.InputColumn
 		for _, rc := range l.Result() {
